@@ -398,7 +398,7 @@ func zzIsSpecial(h string) bool {
 	case "quote", "zzvtrace", "progn", "prog1", "if", "when", "unless", "cond", "case", "and", "or", "let", "let*", "setq",
 		"lambda", "defun", "function", "funcall", "apply", "mapcar", "values", "multiple-value-bind", "dotimes", "dolist",
 		"do", "do*", "block", "return-from", "return", "tagbody", "go", "unwind-protect", "ignore-errors", "error",
-		"recover", "with-mutex-lock":
+		"recover", "with-mutex-lock", "with-open-file":
 		return true
 	}
 	return false
@@ -1400,6 +1400,16 @@ func (r *zzRef) evalExits(head string, rest []slip.Object, e *zzFrame) (zzOut, b
 			return mo, true
 		}
 		return r.seq("with-mutex-lock", rest[1:], e), true
+	case "with-open-file":
+		// (with-open-file (var path options...) body...)
+		spec := rest[0].(slip.List)
+		_, ex := r.evalArgs(spec[1:], e)
+		if ex != nil {
+			return zzOut{ex: ex}, true
+		}
+		name := zzLower(string(spec[0].(slip.Symbol)))
+		fe := &zzFrame{up: e, names: []string{name}, cells: []*zzCell{{v: zzVal{k: zzKSym, s: "#stream"}}}}
+		return r.seq("with-open-file", rest[1:], fe), true
 	case "error":
 		_, ex := r.evalArgs(rest, e)
 		if ex != nil {
